@@ -83,6 +83,30 @@ impl Opts {
     }
 }
 
+/// The harness's own reading of an input number: a real, or D:M[:S] with a sign prefix or a hemisphere
+/// letter (independent of the library's parser, which kp uses)
+fn ref_number(t: &str) -> f64 {
+    let t = t.trim();
+    let (body, hemi) = match t.chars().last() {
+        Some(c) if "NnEe".contains(c) => (&t[..t.len() - 1], 1.),
+        Some(c) if "SsWw".contains(c) => (&t[..t.len() - 1], -1.),
+        _ => (t, 1.),
+    };
+    let negative = body.starts_with('-');
+    let fields: Vec<&str> = body.trim_start_matches(['-', '+']).split(':').collect();
+    if fields.is_empty() || fields.len() > 3 {
+        return f64::NAN;
+    }
+    let mut v = 0.;
+    for (i, f) in fields.iter().enumerate() {
+        match f.parse::<f64>() {
+            Ok(x) => v += x / [1., 60., 3600.][i],
+            Err(_) => return f64::NAN,
+        }
+    }
+    hemi * if negative { -v } else { v }
+}
+
 /// the coordinate lines of an input text: (tuple as the library sees it, number of columns)
 fn parse_input(text: &str, o: &Opts) -> Vec<([f64; 4], usize)> {
     let mut v = Vec::new();
@@ -95,7 +119,7 @@ fn parse_input(text: &str, o: &Opts) -> Vec<([f64; 4], usize)> {
             continue;
         }
         let n = toks.len().min(4);
-        let get = |i: usize, default: f64| toks.get(i).map(|t| angular::parse_sexagesimal(t)).unwrap_or(default);
+        let get = |i: usize, default: f64| toks.get(i).map(|t| ref_number(t)).unwrap_or(default);
         let mut c = [get(0, 0.), get(1, 0.), get(2, 0.), get(3, f64::NAN)];
         // missing height / time default to -z / -t (judged only for lines that do not give them)
         if toks.len() < 3 {
@@ -191,6 +215,21 @@ fn judge(rep: &Report, label: &str, op_def: &str, o: &Opts, inputs: &[String], r
         }
     }
     let homogeneous = parsed.windows(2).all(|w| w[0].1 == w[1].1);
+    // without -D the output dimension is kp's own estimate, but it must be ONE estimate: the same for every line,
+    // wherever the internal batch boundaries fall
+    if o.dim.is_none() && !homogeneous {
+        let cols = |l: &str| l.split_whitespace().count();
+        if let Some(k) = lines.iter().position(|l| cols(l) != cols(lines[0])) {
+            rep.violation(&format!("the number of printed columns changes within one run (at an internal batch boundary) / {key_class}"), {
+                let mut d = describe();
+                d["first_line"] = json!(lines[0]);
+                d["line_index"] = json!(k);
+                d["line"] = json!(lines[k]);
+                d
+            });
+            return;
+        }
+    }
     let conflicts = line_conflicts(&text, o);
     let mut h = 0u64;
     for (i, (line, w)) in lines.iter().zip(want.iter()).enumerate() {
@@ -281,6 +320,7 @@ pub fn run(tier: Tier) -> Report {
         ("comments and blank lines only", vec!["# a comment\n\n   \n# another\n".into()]),
         ("one line, 2 columns", vec!["55 12\n".into()]),
         ("mixed 1-4 columns, comments, sexagesimal", vec!["# header\n55 12\n\n55:30:36N 12:45:36E 100   # trailing comment\n-33.5\n59 18 20 2001.5\n  1:30 2:15 3   \n".into()]),
+        ("sexagesimal signs and hemispheres, zero degrees", vec!["-0:30:00 55:30:36\n0:30:00W 55:30:36N\n-0:15 -0:00:30\n0:45S 0:00:01.5E\n-1:30:36 +1:30:36\n12.5W 7.25S\n".into()]),
         ("homogeneous 3 columns", vec!["55 12 100\n56 13 0\n-33.9 151.2 -5.5\n".into()]),
         ("homogeneous 4 columns", vec!["55 12 100 2001\n56 13 0 2010.5\n".into()]),
         ("two files", vec!["55 12\n56 13\n".into(), "# second file\n57 14\n58 15\n".into()]),
@@ -388,6 +428,34 @@ pub fn run(tier: Tier) -> Report {
         let _ = std::fs::remove_file(pa);
         let _ = std::fs::remove_file(pb);
     });
+    // mixed column counts across the internal batch boundary: one line with a third column, first or at index 25000
+    for (wide_at, label) in [(0usize, "wide line first"), (25_000, "wide line first of the second batch"), (25_003, "wide line last")] {
+        for op_def in [operations[0], operations[1]] {
+            let n = 25_004;
+            let mut text = String::with_capacity(n * 24);
+            for i in 0..n {
+                let lat = 40. + (i % 2000) as f64 * 0.01;
+                let lon = 5. + (i % 700) as f64 * 0.01;
+                if i == wide_at {
+                    text.push_str(&format!("{lat:.2} {lon:.2} 100\n"));
+                } else {
+                    text.push_str(&format!("{lat:.2} {lon:.2}\n"));
+                }
+            }
+            let pa = wd.join(format!("mixed_{wide_at}.txt"));
+            std::fs::write(&pa, &text).unwrap();
+            let o = Opts { inv: false, roundtrip: false, z: None, t: None, d: Some(3), dim: None };
+            let mut args = o.args();
+            args.push(op_def.to_string());
+            args.push(pa.to_string_lossy().to_string());
+            rep.eval(1);
+            match run_kp(&wd, &args, None) {
+                Ok(run) => judge(&rep, &format!("25004 lines, {label}"), op_def, &o, &[text.clone()], &run, "batch axis (mixed column counts)", &seen),
+                Err(e) => rep.machinery_error(e),
+            }
+            let _ = std::fs::remove_file(pa);
+        }
+    }
     rep.set("option_combinations", json!(optsets.len()));
     rep.set("invocations", json!(jobs.len() + bjobs.len() + 2));
     rep.sample(json!({"args": optsets[77].args(), "operation": operations[0], "input": shapes[3].1}));
